@@ -6,6 +6,7 @@ import (
 	"bytes"
 	"errors"
 	"fmt"
+	"reflect"
 	"strings"
 
 	"go.uber.org/dig"
@@ -249,6 +250,11 @@ func (r *Run) ProvideOptions(f *u.Func, inst string, st *Step) []dig.ProvideOpti
 	}
 	if f.Export {
 		po = append(po, dig.Export(true))
+	}
+	if f.LocPC != "" {
+		if d := u.Declared(f.LocPC); d != nil {
+			po = append(po, dig.LocationForPC(reflect.ValueOf(d.Fn).Pointer()))
+		}
 	}
 	if f.Callback {
 		po = append(po, dig.WithProviderCallback(r.callback(inst)))
